@@ -262,7 +262,11 @@ static int transition(const unsigned char *image, const model_t *m0, int opi, ch
     /* (1) the stored (residue-free) image at a fresh address */
     place_t p = place_new(image); *m1 = *m0; int e1, e2;
     qhasharr_slot_t before[16]; memcpy(before, SL(p.reg), sizeof(qhasharr_slot_t) * M);
+    /* copies taken before the operation: they must stay intact when their element is replaced, removed or cleared */
+    void *pre[NK]; size_t presz[NK];
+    { qhasharr_t *h0 = qhasharr(p.reg, 0); for (int k = 0; k < NK; k++) { pre[k] = m0->len[k] >= 0 ? h0->get_by_obj(h0, KEYS[k], KEYN[k], &presz[k]) : NULL; } h0->free(h0); }
     int r1 = run_op(p.reg, &OPS[opi], m1, 1, after, &e1);
+    for (int k = 0; k < NK; k++) if (pre[k]) { unsigned char ex[128]; value_of(k, m0->len[k], ex); n_copies++; if ((int)presz[k] != LENS[m0->len[k]] || memcmp(pre[k], ex, presz[k])) vc_viol("ownership:copy-changed", "after %s: the copy of key %d taken before the operation changed", after, k); free(pre[k]); }
     { long w0 = vc_nviol; wellformed(p.reg, m1, after); n_soft += vc_nviol - w0; }   /* structural findings do not prune the search: the map oracle goes on from the damaged image */
     /* relocation / promotion bookkeeping for the vacuity guard */
     for (int i = 0; i < M; i++) { qhasharr_slot_t *s = SL(p.reg); if (before[i].count < 0 && s[i].count >= 1 && OPS[opi].kind == OP_PUT) n_reloc++; if (before[i].count > 1 && s[i].count >= 1 && OPS[opi].kind != OP_PUT && before[i].data.pair.namesize && memcmp(before[i].data.pair.namemd5, s[i].data.pair.namemd5, 16)) n_promote++; }
